@@ -270,6 +270,10 @@ def _mutations(doc):
         if s.get('parallel states'):
             add('hist-under-orthogonal', i, lambda d, ss, x: x['parallel states'].append(
                 {'name': 'zz_hist', 'type': 'shallow history'}))
+            add('hist-under-orthogonal-first', i, lambda d, ss, x: x['parallel states'].insert(
+                0, {'name': 'zz_hist', 'type': 'deep history'}))
+            add('hist-under-orthogonal-middle', i, lambda d, ss, x: x['parallel states'].insert(
+                len(x['parallel states']) // 2, {'name': 'zz_hist', 'type': 'shallow history'}))
         # transitions
         trs_ = s.get('transitions')
         for k, t in enumerate(trs_ if isinstance(trs_, list) else []):
